@@ -15,6 +15,8 @@ inline int keyOf(const Tracked& k) { return k.get("key"); }
 
 template <typename F, typename Model>
 void checkMap(Case& c, F& f, const Model& m, long liveExpected) {
+  if (!c.regOk())
+    return;
   const F& cf = f;
   c.eq("size", f.size(), m.size());
   c.eq("empty", f.empty(), m.empty());
@@ -319,9 +321,10 @@ void run_flat_map(Case& c) {
   unsigned nops     = c.pickOps();
   static const char* TN[] = {"int->tracked", "int->pod", "tracked->tracked", "int->tracked,greater"};
   std::string cfg = std::string(TN[types]) + "|keys" + std::to_string(keyRange) + (dupRange ? "|duprange" : "");
-  c.begin("flat_map", cfg,
+  if (!c.begin("flat_map", cfg,
           J().kv("types", TN[types]).kv("key_range", keyRange).kv("range_ctor_may_get_duplicate_keys", dupRange)
-              .kv("nops", nops));
+              .kv("nops", nops)))
+    return;
   switch (types) {
   case 0: return mapT<int, Tracked, std::less<>>(c, dupRange, keyRange, nops);
   case 1: return mapT<int, Pod, std::less<>>(c, dupRange, keyRange, nops);
